@@ -45,6 +45,33 @@ fn is_amf(type_id: u8) -> bool {
     matches!(type_id, 15 | 17 | 18 | 20)
 }
 
+/// The library has two public ways from a message to its payload (`MessagePayload::from_rtmp_message`
+/// and the convenience `RtmpMessage::into_message_payload`): every conversion goes through both,
+/// and they must agree - both refuse, or both give the same payload.  Returns the first one's result.
+fn to_payload(lib_msg: RtmpMessage, ts: u32, msid: u32, ctx: &dyn Fn() -> serde_json::Value, out: &mut Out) -> Option<Result<MessagePayload, String>> {
+    let twin = lib_msg.clone();
+    let a = lib_call(out, "MessagePayload::from_rtmp_message", ctx, || MessagePayload::from_rtmp_message(lib_msg, RtmpTimestamp::new(ts), msid))?;
+    let b = lib_call(out, "RtmpMessage::into_message_payload", ctx, || twin.into_message_payload(RtmpTimestamp::new(ts), msid))?;
+    let same = match (&a, &b) {
+        (Ok(x), Ok(y)) => x == y,
+        (Err(_), Err(_)) => true,
+        _ => false,
+    };
+    if same {
+        out.count("conversions_through_both_entry_points_agree", 1);
+    } else {
+        let show = |r: &Result<MessagePayload, rml_rtmp::messages::MessageSerializationError>| match r {
+            Ok(p) => format!("Ok(type {}, msid {}, ts {}, body {})", p.type_id, p.message_stream_id, p.timestamp.value, hex_short(&p.data, 40)),
+            Err(e) => format!("Err({:?})", e),
+        };
+        out.violation(
+            "message-to-payload-entry-points-disagree",
+            json!({"message": ctx(), "from_rtmp_message": show(&a), "into_message_payload": show(&b)}),
+        );
+    }
+    Some(a.map_err(|e| format!("{:?}", e)))
+}
+
 /// message -> payload -> message, against the reference layout
 fn encode_direction(m: &RMsg, rng: &mut Rng, out: &mut Out) {
     out.eval(1);
@@ -54,9 +81,7 @@ fn encode_direction(m: &RMsg, rng: &mut Rng, out: &mut Out) {
     };
     let ts = rng.u32_boundary();
     let msid = rng.u32_boundary();
-    let r = match lib_call(out, "MessagePayload::from_rtmp_message", || m.to_json(), || {
-        MessagePayload::from_rtmp_message(lib_msg, RtmpTimestamp::new(ts), msid)
-    }) {
+    let r = match to_payload(lib_msg, ts, msid, &|| m.to_json(), out) {
         Some(r) => r,
         None => return,
     };
@@ -296,9 +321,7 @@ impl Check for C13 {
             for size in [0u32, 1, 0x7FFF_FFFE, 0x7FFF_FFFF, 0x8000_0000, 0x8000_0001, 0xFFFF_FFFF, 0xC000_0000] {
                 decode_direction(1, &size.to_be_bytes(), "chunk_size_edge", out);
                 out.eval(1);
-                let r = lib_call(out, "MessagePayload::from_rtmp_message", || json!({"SetChunkSize": size}), || {
-                    MessagePayload::from_rtmp_message(RtmpMessage::SetChunkSize { size }, RtmpTimestamp::new(0), 0)
-                });
+                let r = to_payload(RtmpMessage::SetChunkSize { size }, 0, 0, &|| json!({"SetChunkSize": size}), out);
                 match r {
                     Some(Ok(_)) if size > 0x7FFF_FFFF => out.violation("chunk-size-above-2^31-1-accepted-when-encoding", json!({"size": size})),
                     Some(Err(e)) if size <= 0x7FFF_FFFF => out.violation("well-formed-message-refused", json!({"SetChunkSize": size, "error": format!("{:?}", e)})),
@@ -363,7 +386,7 @@ impl Check for C13 {
         }
     }
     fn rule(&self) -> String {
-        "messages of every RtmpMessage variant with boundary-biased u32 fields, all 9 user-control events (exactly the fields each defines), 3 limit types, AMF0 command/data with generated argument lists (transaction ids incl. NaN and -0 by bit pattern), audio/video 0-64 KiB, Unknown for every other id, and commands / data messages carrying one string or property name of more than 65,535 bytes (ASCII or multi-byte; these may be refused, or accepted if they convert back to an equal message): message->payload compared with the reference type id and body, then payload->message compared with the original. Decode direction: all 256 type ids x {reference body, every short truncation, trailing bytes, random body, bit-flipped body}, user-control codes 0..40 x 0..3 fields, limit codes 0..255, chunk sizes around 2^31. Distinct = (variant, event/limit code, field boundary class, AMF shape).".to_string()
+        "messages of every RtmpMessage variant with boundary-biased u32 fields, all 9 user-control events (exactly the fields each defines), 3 limit types, AMF0 command/data with generated argument lists (transaction ids incl. NaN and -0 by bit pattern), audio/video 0-64 KiB, Unknown for every other id, and commands / data messages carrying one string or property name of more than 65,535 bytes (ASCII or multi-byte; these may be refused, or accepted if they convert back to an equal message): message->payload compared with the reference type id and body, then payload->message compared with the original. Decode direction: all 256 type ids x {reference body, every short truncation, trailing bytes, random body, bit-flipped body}, user-control codes 0..40 x 0..3 fields, limit codes 0..255, chunk sizes around 2^31. Distinct = (variant, event/limit code, field boundary class, AMF shape). Every message-to-payload conversion goes through both public entry points (MessagePayload::from_rtmp_message and RtmpMessage::into_message_payload), which must agree.".to_string()
     }
     fn assumptions(&self) -> Vec<String> {
         vec![
